@@ -17,6 +17,8 @@ import Mathlib.Algebra.Order.Field.Rat
 import Mathlib.Tactic.Module
 import Mathlib.Tactic.Abel
 import Mathlib.Tactic.NormNum
+import Mathlib.Tactic.FieldSimp
+import Mathlib.Tactic.Ring
 
 open OdlModel.Solvers
 
@@ -575,6 +577,87 @@ theorem C11.admm_resume_needs_state :
   simp only [Function.iterate_succ, Function.iterate_zero, Function.comp, AdmmP.stepOpt,
     AdmmP.initOpt, lincomb, smul_eq_mul]
   norm_num
+end
+
+/-! ### Round 4: the executed split runs, and the step-size product of accelerated PDHG -/
+section
+variable {K V W : Type} [Field K] [DecidableEq K] [AddCommGroup V] [Module K V] [AddCommGroup W] [Module K W]
+set_option linter.unusedSectionVars false
+
+/-- The split run that the driver executes for the stream `cg_restart` (`CgP.runSplit`: `n`
+iterations, second call on the returned `x` with `m` iterations, logs concatenated) is, for a linear
+operator, the continuation of the FIRST call's final state with the direction reset to the residual:
+`x`, `r`, `sqnorm_r_old` are carried over by the second call although it recomputes them from `x`. -/
+theorem C11.cg_runSplit_is_restart (P : CgP K V) (hadd : ∀ u v, P.op (u + v) = P.op u + P.op v)
+    (hsmul : ∀ (c : K) v, P.op (c • v) = c • P.op v) (x0 junk junk' : V) (n m : Nat) :
+    let s := P.step^[n] (P.init x0 junk)
+    (P.runSplit x0 junk junk' n m).x =
+      (P.step^[m] { s with p := s.r, d := junk', stopped := decide (s.sqnormROld = 0), log := [] }).x ∧
+    (P.runSplit x0 junk junk' n m).log =
+      s.log ++ (P.step^[m] { s with p := s.r, d := junk', stopped := decide (s.sqnormROld = 0), log := [] }).log := by
+  intro s
+  have h := C11.cg_restart_state P hadd hsmul x0 junk junk' n
+  simp only [CgP.runSplit, iter_eq]
+  simp only at h
+  rw [h]
+  exact ⟨rfl, rfl⟩
+
+/-- The same for the executed split run of `conjugate_gradient_normal` (`CgnP.runSplit`). -/
+theorem C11.cgn_runSplit_is_restart (P : CgnP K V W) (hadd : ∀ u v, P.op (u + v) = P.op u + P.op v)
+    (hsmul : ∀ (c : K) v, P.op (c • v) = c • P.op v) (hlin : ∀ u v w, P.dAdj u w = P.dAdj v w)
+    (x0 : V) (junk junk' : W) (n m : Nat) :
+    let s := P.step^[n] (P.init x0 junk)
+    (P.runSplit x0 junk junk' n m).x =
+      (P.step^[m] { s with p := s.s, q := junk', stopped := false, log := [] }).x ∧
+    (P.runSplit x0 junk junk' n m).log =
+      s.log ++ (P.step^[m] { s with p := s.s, q := junk', stopped := false, log := [] }).log := by
+  intro s
+  have h := C11.cgn_restart_state P hadd hsmul hlin x0 junk junk' n
+  simp only [CgnP.runSplit, iter_eq]
+  simp only at h
+  rw [h]
+  exact ⟨rfl, rfl⟩
+end
+
+section
+variable {K V W : Type} [Field K] [AddCommGroup V] [Module K V] [AddCommGroup W] [Module K W]
+set_option linter.unusedSectionVars false
+
+/-- Accelerated `pdhg`: the product `tau * sigma` is a loop invariant (each acceleration multiplies
+one step and divides the other by the same `theta`), for `gamma_primal`, `gamma_dual` or neither,
+whenever `sqrt` never returns zero (true of `np.sqrt` on arguments `≥ 1`).  So the step sizes a
+caller hands back for resumption (`pdhg_acc_resume`) satisfy `tau_n * sigma_n = tau_0 * sigma_0`:
+one of them determines the other. -/
+theorem C11.pdhg_acc_step_product (P : PdhgAccP K V W) (hs : ∀ q, P.sqrt q ≠ 0)
+    (s : PdhgAccS K V W) (n : Nat) :
+    (P.step^[n] s).tau * (P.step^[n] s).sigma = s.tau * s.sigma := by
+  refine iterate_inv P.step (fun a => a.tau * a.sigma = s.tau * s.sigma) ?_ n s rfl
+  intro a h
+  have hth : ∀ q, (1 : K) / P.sqrt q ≠ 0 := fun q => one_div_ne_zero (hs q)
+  have e1 : ∀ t u th : K, th ≠ 0 → t * th * (u / th) = t * u := by
+    intro t u th h0; field_simp
+  have e2 : ∀ t u th : K, th ≠ 0 → t / th * (u * th) = t * u := by
+    intro t u th h0; field_simp
+  simp only [PdhgAccP.step, PdhgAccP.accel]
+  rcases hp : P.gammaPrimal with _ | g <;> rcases hd : P.gammaDual with _ | g' <;> simp only [] <;>
+    rw [← h]
+  · exact e2 _ _ _ (hth _)
+  · exact e1 _ _ _ (hth _)
+  · rw [e2 _ _ _ (hth _), e1 _ _ _ (hth _)]
+
+/-- Non-vacuity: the `sqrt` of the instance used above is nowhere zero, and its steps move
+(`1/2, 1 ↦ 1/4, 2`) with the product `1/2` kept. -/
+example :
+    let P : PdhgAccP ℚ ℚ ℚ := ⟨id, fun _ y => y, fun t x => x / (1 + t), fun _ y => y,
+      some 3, none, fun q => if q = 4 then 2 else 1⟩
+    (∀ q, P.sqrt q ≠ 0) ∧ (P.step^[1] (P.init 1 none none 0 (1 / 2) 1 1 0 0)).tau = 1 / 4 ∧
+    (P.step^[1] (P.init 1 none none 0 (1 / 2) 1 1 0 0)).sigma = 2 := by
+  refine ⟨fun q => ?_, ?_, ?_⟩
+  · simp only; split <;> norm_num
+  all_goals
+    simp only [Function.iterate_succ, Function.iterate_zero, Function.comp, PdhgAccP.step, PdhgAccP.init,
+      PdhgAccP.accel, lincomb, smul_eq_mul, Option.getD, id]
+    norm_num
 end
 
 /-! ### Callbacks -/
